@@ -17,6 +17,7 @@ package util
 //                                    -> D <real> <ref>         real Decrypt; ref = gcm.Open on the slices the
 //                                                              model predicted, key by derivation k
 //                                                              (1 Argon2id, 2 PBKDF2, 3 hex-MD5, 4 SHA-256)
+//   H <text>                         -> H ok <bytes> | H err              encoding/hex DecodeString (the token layer)
 //   <real>, <ref> are  ok:<hex plaintext>  or  err
 
 import (
@@ -176,6 +177,14 @@ func TestVerifC27(t *testing.T) {
 				fmt.Fprintf(w, "B err\n")
 			} else {
 				fmt.Fprintf(w, "B ok %s %s\n", c27hex(b), c27hex([]byte(base64.StdEncoding.EncodeToString(b))))
+			}
+
+		case "H":
+			b, err := hex.DecodeString(string(c27unhex(f[1])))
+			if err != nil {
+				fmt.Fprintf(w, "H err\n")
+			} else {
+				fmt.Fprintf(w, "H ok %s\n", c27hex(b))
 			}
 
 		case "D":
